@@ -288,6 +288,54 @@ class C09(SimCheck):
     required_counters = ["c09.selections_checked", "c09.selections_after_failures", "c09.probe_copies"]
 
 
+class C14(SimCheck):
+    pid = "C14"
+    level = "fault_enumeration"
+    rule = ("scenario family: generated simulator histories (init with generated options, all ten request kinds to completion against answers / negative answers / timeouts / TCP fallback, cache hits, "
+            "set_servers / reinit, cancel, callbacks that start requests or cancel, bursts of 10-22 requests outstanding at once, destroy). Each scenario is first run with a counting allocator "
+            "(ares_library_init_mem) to learn its allocation count N, then re-run once per chosen index n with exactly allocation n refused: 4-11 generated indices per scenario, or every n in 1..N "
+            "(2 workers in quick, all workers in thorough, and always for the fixed family in replays/C14/family-*.txt). Oracle per faulted run: ASan/UBSan silent, every request gets exactly one "
+            "callback, nothing started after the refused allocation reports ARES_ENOMEM, a fresh request issued afterwards completes before destroy, allocation ledger empty after ares_destroy "
+            "(also after a failed ares_init_options). Wire family (2 workers): generated / mutated messages through ares_dns_parse + getters + ares_dns_write + duplicate, the twelve legacy reply "
+            "parsers and ares_expand_name/string, first counted, then with each allocation index refused (all indices when N <= 600, else the first 200 and 400 spread evenly); oracle: the "
+            "result/no-result invariants of C02 still hold, ledger back to its starting value. evaluations = scenarios + messages; the number of faulted runs is class counter c14.runs_with_one_refused_allocation. "
+            "non-trivial = the refused allocation happened while at least one request was in flight; distinct = distinct scenario text")
+    required_counters = ["c14.runs_with_one_refused_allocation", "c14.faults_with_requests_in_flight", "c14.faults_during_init", "c14.scenarios_enumerated_exhaustively"]
+    CASES_Q = 200
+    CASES_T = 4000
+    ALL_CASES_Q = 10
+    nontrivial_floor = {"quick": 50, "thorough": 200}
+
+    def jobs(self, tier, seed, excludes):
+        jobs = []
+        quick = tier == "quick"
+        for w in range(14):
+            exhaustive = (not quick) or w >= 12
+            n = (self.ALL_CASES_Q if quick else self.CASES_T // 10) if exhaustive else self.CASES_Q
+            jobs.append(("sim_rc", [self.pid], {"SIM_C14_ALL": "1" if exhaustive else "0"}, rc_params(seed * 1000 + w, n, self.SIZE if w % 3 else 200, noshrink=True)))
+        # wire family: every decoder / re-encoder of the C02 harness under each single refused allocation (two workers)
+        for i, mode in enumerate(["C14-gen", "C14-mut"]):
+            jobs.append(("wire_rc", [mode], {"SIM_C14_ALL": "0" if quick else "1"}, rc_params(seed * 1000 + 500 + i, 1500 if quick else 60000, 100, noshrink=True)))
+        return jobs
+
+    harnesses = ["sim_rc", "sim_replay", "wire_rc"]
+
+    def replay_for_text(self, text):
+        return ("wire_rc", []) if "\nkind " in "\n" + text else ("sim_replay", [])
+
+    def replay_for(self, path):
+        try:
+            return self.replay_for_text(open(path).read())
+        except Exception:
+            return ("sim_replay", [])
+
+    def prepare_for_minimise(self, text):
+        if "\nkind " in "\n" + text:
+            return text
+        # the index of the refused allocation shifts when lines are deleted: minimise against "some index fails"
+        return "\n".join(("failat all" if l.startswith("failat") else l) for l in text.split("\n"))
+
+
 class C17(SimCheck):
     pid = "C17"
     rule = ("1-3 servers with cookie behaviours {none, valid, changing server cookie, wrong client part, client-part only} that can change mid-run, BADCOOKIE replies, source-address changes, "
@@ -299,4 +347,4 @@ class C17(SimCheck):
     required_counters = ["c17.server_cookie_echo_checks", "c17.timer_crossings"]
 
 
-CHECKS = {"C17": C17, "C09": C09, "C12": C12, "C13": C13, "C08": C08, "C19": C19, "C02": C02, "C03": C03, "C04": C04, "C18": C18, "C01": C01, "C05": C05, "C06": C06, "C07": C07, "C10": C10, "C20": C20}
+CHECKS = {"C14": C14, "C17": C17, "C09": C09, "C12": C12, "C13": C13, "C08": C08, "C19": C19, "C02": C02, "C03": C03, "C04": C04, "C18": C18, "C01": C01, "C05": C05, "C06": C06, "C07": C07, "C10": C10, "C20": C20}
